@@ -104,7 +104,7 @@ def run_history(args):
     for k, (kind, cmd) in enumerate(ops, 1):
         if kind == 'disk':
             j = R.randint(1, min(3, nfiles))
-            cmd = b'!cp alt f%d' % j
+            cmd = b'!repl f%d' % j      # replaced on disk with a visibly newer time (mtimes have one-second resolution)
         concrete.append((kind, cmd))
         script += cmd + b'\nec ' + S(3 * k) + b'\nb\nec ' + S(3 * k + 1) + b'\n.=\nec ' + S(3 * k + 2) + b'\nw! d%d\n' % k
     K = len(concrete)
@@ -259,8 +259,8 @@ def run_history(args):
             cur.line = line
             if kind == 'write':
                 st0 = [st for (i, a, p, st) in lst if p == cur.path][0]
-                if cur.touched and st0:
-                    pass                    # refused: "file changed" (whole-second mtime comparison; outcome taken from the observation)
+                if cur.touched:
+                    pass                    # refused: the file is newer than what the editor read ("file changed"), whatever the buffer's state
                 else:
                     cur.saved = text
                     disk[cur.path] = text
